@@ -271,8 +271,8 @@ func childMain(args []string) {
 			wg.Add(1)
 			go func(k int) {
 				defer wg.Done()
-				for j := int64(0); j < n; j++ {
-					i := *lo + (j*int64(*g)+int64(k)*7)%n
+				for j := int64(k); j < n; j += int64(*g) { // every program once, on one of the g goroutines, while the others run other programs
+					i := *lo + j
 					p := genProgram(*seed, i)
 					t := transcript(p)
 					ref := seqT[i] // the sequential run of this process (read-only here)
@@ -552,7 +552,7 @@ func runMain(args []string) {
 	sample := genProgram(*seed, *lo)
 	hx.Emit(map[string]any{"kind": "summary", "programs": len(idx), "processes": *k, "goroutines": *g, "divergences": ndiv,
 		"distribution": tagc, "with_error": errs, "sample_program": sample.Src, "sample_transcript": trunc(transcript(sample), 1500),
-		"executions": len(idx)*(*k+2) + len(idx)*(*g)*2})
+		"executions": len(idx)*(*k+2) + len(idx)})
 	hx.Flush()
 }
 
